@@ -376,13 +376,13 @@ class LanguageContextBuilder:
         self.config.update_section(
             LanguageClassLoader.to_language_module_name(target_language_name), self._target_language_config
         )
-
+        detached = _detached_builder(self)  # the context gets its own deep copy of what was merged so far
         # Create the target language instance...
-        target_language = self._new_language_w_experimental_handling(target_language_name)
+        target_language = detached._new_language_w_experimental_handling(target_language_name)
 
         # and finally, build the LanguageContext.
         return LanguageContext(
-            self._ln_loader.config, target_language, functools.partial(self._new_language_map, target_language)
+            detached.config, target_language, functools.partial(detached._new_language_map, target_language)
         )
 
     # +-----------------------------------------------------------------------+
@@ -529,3 +529,20 @@ class LanguageContext:
         supported languages. This is the same object that is used to instantiate the :class:`nunavut.lang.Language`
         """
         return self._config
+
+
+def _detached_builder(builder: LanguageContextBuilder) -> LanguageContextBuilder:
+    """
+    A builder holding deep copies of everything ``builder`` has accumulated (configuration, overrides, target
+    language). :meth:`LanguageContextBuilder.create` builds the new :class:`LanguageContext` from these copies so that
+    neither later calls on ``builder`` nor the in-place validation of language options can change what a context
+    created earlier reports.
+    """
+    import copy  # pylint: disable=import-outside-toplevel
+
+    # pylint: disable=protected-access
+    detached = LanguageContextBuilder(builder._include_experimental_languages)
+    detached._target_language_name = builder._target_language_name
+    detached._target_language_config = copy.deepcopy(builder._target_language_config)
+    detached._ln_loader._config = copy.deepcopy(builder.config)
+    return detached
